@@ -353,6 +353,43 @@ func genC20(rng *hx.Rng, tier string, w *hx.Writer) error {
 	if tier == "thorough" {
 		nProg = 1500
 	}
-	genPointMachine(rng, w, Ed, GrpEd, "Ed25519", EdL, nProg, "point-arithmetic", 0)
+	genPointMachine(rng, w, Ed, GrpEd, "Ed25519", EdL, nProg, "point-arithmetic", "ed", 1)
+	// the point operations against Models/Ed.v (ge.go's formulas over Z/(2^255-19), geScalarMult's
+	// signed radix-16 digits): [k]B, [a]B + [b]B, [a]B - [b]B, -[a]B, [a]([b]B), [a]B + (-[b]B);
+	// the judge computes the logarithm of the result and asks crypto/ed25519's own base multiplication
+	edScal := []*big.Int{big.NewInt(0), big.NewInt(1), big.NewInt(2), big.NewInt(8), big.NewInt(15), big.NewInt(16), big.NewInt(255),
+		new(big.Int).Sub(EdL, big.NewInt(1)), new(big.Int).Sub(EdL, big.NewInt(2)), new(big.Int).Rsh(EdL, 1),
+		new(big.Int).Lsh(big.NewInt(1), 252), new(big.Int).Sub(new(big.Int).Lsh(big.NewInt(1), 252), big.NewInt(1))}
+	ne := 10
+	if tier == "thorough" {
+		ne = 300
+	}
+	for i := 0; i < ne; i++ {
+		edScal = append(edScal, rng.BigBelow(EdL))
+	}
+	edRef := func(d *big.Int) []byte { // [d]B by the implementation's base multiplication, fresh
+		return PtBytes(Pt(Ed, new(big.Int).Mod(d, EdL), EdL))
+	}
+	edCase := func(op int, a, b *big.Int, got []byte, d *big.Int, what string) {
+		oracle := "ok"
+		if !bytes.Equal(got, edRef(d)) {
+			oracle = hx.Fail("point-arithmetic", what+" differs from the multiple of the base point it must be")
+		}
+		args := hx.L(hx.Z(a))
+		if b != nil {
+			args = hx.L(hx.Z(a), hx.Z(b))
+		}
+		w.Put(hx.Case{Entry: "ed", Op: op, Args: args, Impl: hx.B(got), Oracle: oracle, Tags: []string{"ed-point-op", fmt.Sprintf("op:%d", op), "nt"}})
+	}
+	for i, a := range edScal {
+		b := edScal[(i*7+3)%len(edScal)]
+		A, B := Pt(Ed, a, EdL), Pt(Ed, b, EdL)
+		edCase(1, a, nil, PtBytes(A), a, "[a]B")
+		edCase(2, a, b, PtBytes(Ed.Point().Add(A, B)), new(big.Int).Add(a, b), "[a]B + [b]B")
+		edCase(3, a, b, PtBytes(Ed.Point().Sub(A, B)), new(big.Int).Sub(a, b), "[a]B - [b]B")
+		edCase(4, a, nil, PtBytes(Ed.Point().Neg(A)), new(big.Int).Neg(a), "-[a]B")
+		edCase(5, a, b, PtBytes(Ed.Point().Mul(Sc(Ed, a, EdL), B)), new(big.Int).Mul(a, b), "[a]([b]B)")
+		edCase(6, a, b, PtBytes(Ed.Point().Add(A, Ed.Point().Neg(B))), new(big.Int).Sub(a, b), "[a]B + (-[b]B)")
+	}
 	return nil
 }
